@@ -902,4 +902,196 @@ theorem dBranch_sound (s : Str) (v : Dec) (hl : ¬ (s = ['+'] ∨ s = ['-']))
         simp at hp
 
 
+
+/-! ### numbers: completeness helpers -/
+
+theorem notSD_of_dig_or_dot (c : Char) (h : isDig c = true ∨ c = '.') : notSD c = true := by
+  rcases h with h | rfl
+  · exact (isDig_props c h).1
+  · decide
+
+/-- the mantissa scan consumes a prefix made of digits and at most one point -/
+theorem scanMant_split (s1 ip fp rest : Str) (h : scanMant s1 = some (ip, fp, rest)) :
+    ∃ M, s1 = M ++ rest ∧ (∀ c ∈ M, notSD c = true) := by
+  unfold scanMant at h
+  have hsplit := List.takeWhile_append_dropWhile (p := isDig) (l := s1)
+  have hipd : ∀ c ∈ List.takeWhile isDig s1, notSD c = true :=
+    fun c hc => notSD_of_dig_or_dot c (Or.inl (mem_takeWhile_holds _ _ _ hc))
+  cases hs2 : List.dropWhile isDig s1 with
+  | nil =>
+    simp only [hs2] at h
+    split at h
+    · exact absurd h (by simp)
+    · simp only [Option.some.injEq, Prod.mk.injEq] at h
+      refine ⟨List.takeWhile isDig s1, ?_, hipd⟩
+      rw [← h.2.2, ← hs2]; exact hsplit.symm
+  | cons c q =>
+    simp only [hs2] at h
+    by_cases hc : c = '.'
+    · subst hc
+      simp only [if_true] at h
+      split at h
+      · exact absurd h (by simp)
+      · simp only [Option.some.injEq, Prod.mk.injEq] at h
+        have hq2 := List.takeWhile_append_dropWhile (p := isDig) (l := q)
+        refine ⟨List.takeWhile isDig s1 ++ '.' :: List.takeWhile isDig q, ?_, ?_⟩
+        · rw [← h.2.2, List.append_assoc, List.cons_append, hq2, ← hs2]; exact hsplit.symm
+        · intro x hx
+          rcases List.mem_append.mp hx with h1 | h1
+          · exact hipd x h1
+          · rcases List.mem_cons.mp h1 with rfl | h2
+            · decide
+            · exact notSD_of_dig_or_dot x (Or.inl (mem_takeWhile_holds _ _ _ h2))
+    · simp only [hc, if_false] at h
+      split at h
+      · exact absurd h (by simp)
+      · simp only [Option.some.injEq, Prod.mk.injEq] at h
+        refine ⟨List.takeWhile isDig s1, ?_, hipd⟩
+        rw [← h.2.2, ← hs2]; exact hsplit.symm
+
+
+theorem scanMant_of_append (M : Str) (x : Char) (r ip fp : Str) (hx1 : isDig x = false) (hx2 : x ≠ '.')
+    (h : scanMant (M ++ x :: r) = some (ip, fp, x :: r)) : scanMant M = some (ip, fp, []) := by
+  rw [scanMant_append M x r hx1 hx2] at h
+  cases hm : scanMant M with
+  | none => simp [hm] at h
+  | some t =>
+    obtain ⟨a, b, r0⟩ := t
+    simp only [hm, Option.map_some, Option.some.injEq, Prod.mk.injEq] at h
+    obtain ⟨h1, h2, h3⟩ := h
+    have : r0 = [] := by
+      have hl := congrArg List.length h3
+      simp only [List.length_append, List.length_cons] at hl
+      exact List.eq_nil_of_length_eq_zero (by omega)
+    rw [h1, h2, this]
+
+theorem scanExp_sign_fwd (c : Char) (g4 : Str) (hc : isSign c = true) (h1 : g4.isEmpty = false)
+    (h2 : g4.all isDig = true) :
+    scanExp (c :: g4) = some (if c = '-' then - (digitsVal g4 : Int) else (digitsVal g4 : Int)) := by
+  have hc' : c = '+' ∨ c = '-' := by simpa [isSign] using hc
+  have hts : takeSign (c :: g4) = (decide (c = '-'), g4) := by
+    rcases hc' with rfl | rfl <;> simp [takeSign]
+  unfold scanExp
+  simp only [hts, h1, h2]
+  rcases hc' with rfl | rfl <;> simp
+
+theorem scanExp_map_fwd (r : Str) (e : Int) (h : scanExp r = some e) : scanExp (r.map replD) = some e := by
+  unfold scanExp at h ⊢
+  rw [takeSign_map_fD]
+  cases hts : takeSign r with
+  | mk neg w =>
+    simp only [hts] at h ⊢
+    cases hw : w.all isDig with
+    | false => simp [hw] at h
+    | true =>
+      rw [map_fD_digits w hw]
+      exact h
+
+theorem shortTry_complete (g1 : Option Char) (M : Str) (x : Char) (r : Str)
+    (hM : ∀ c ∈ M, notSD c = true) (hx : isSign x = true) (hr : r.all isDig = true) :
+    shortTry g1 (M ++ x :: r) = some ((if g1 = some '-' then ['-'] else []) ++ M ++ ['E', x] ++ r) := by
+  have hx' : x = '+' ∨ x = '-' := by simpa [isSign] using hx
+  have hxN : notSD x = false := by rcases hx' with rfl | rfl <;> decide
+  have tw := takeWhile_all (p := notSD) M x r hM hxN
+  have hrN : r.all notSD = true := by
+    simp only [List.all_eq_true] at hr ⊢
+    exact fun c hc => (isDig_props c (hr c hc)).1
+  unfold shortTry
+  simp only [tw.1, tw.2, hx, hrN]
+  simp
+
+theorem pyFloat_shortText (neg : Bool) (M : Str) (x : Char) (r ip fp : Str)
+    (hM : ∀ c ∈ M, notSD c = true) (hm : scanMant M = some (ip, fp, [])) (hx : isSign x = true)
+    (h1 : r.isEmpty = false) (h2 : r.all isDig = true) :
+    pyFloat ((if neg then ['-'] else []) ++ M ++ ['E', x] ++ r) =
+      some (mkDec neg ip fp (if x = '-' then - (digitsVal r : Int) else (digitsVal r : Int))) := by
+  have hts : takeSign ((if neg then ['-'] else []) ++ M ++ ['E', x] ++ r) = (neg, M ++ 'E' :: x :: r) := by
+    cases neg with
+    | true => simp [takeSign]
+    | false =>
+      simp only [Bool.false_eq_true, if_false, List.nil_append]
+      cases M with
+      | nil => simp [takeSign]
+      | cons c cs =>
+        have := takeSign_not_sign c (cs ++ ['E', x] ++ r) (notSD_not_sign c (hM c (by simp)))
+        simpa using this
+  rw [pyFloat_eq, hts]
+  unfold pyTail
+  rw [scanMant_append M 'E' (x :: r) (by decide) (by decide), hm]
+  simp only [Option.map_some, List.nil_append]
+  have hE : (decide ('E' = 'e') || decide ('E' = 'E')) = true := by decide
+  simp only [scanExp_sign_fwd x r hx h1 h2]
+  simp
+
+
+def isDch (c : Char) : Bool := c = 'D' || c = 'd'
+
+theorem notSD_not_D (c : Char) (h : notSD c = true) : isDch c = false := by
+  simp [notSD] at h
+  simp [isDch, h.1.2, h.2]
+
+theorem shortTry_noD (g1 : Option Char) (rest t : Str) (h : shortTry g1 rest = some t) :
+    rest.any isDch = false := by
+  unfold shortTry at h
+  have hsplit := List.takeWhile_append_dropWhile (p := notSD) (l := rest)
+  cases hd : List.dropWhile notSD rest with
+  | nil => simp [hd] at h
+  | cons c r3 =>
+    simp only [hd] at h
+    by_cases hq : (isSign c && r3.all notSD) = true
+    · simp only [Bool.and_eq_true] at hq
+      rw [← hsplit, hd]
+      simp only [List.any_append, List.any_cons, Bool.or_eq_false_iff]
+      refine ⟨?_, ?_, ?_⟩
+      · rw [List.any_eq_false]
+        intro x hx
+        simpa using notSD_not_D x (mem_takeWhile_holds _ _ _ hx)
+      · have hc' : c = '+' ∨ c = '-' := by simpa [isSign] using hq.1
+        rcases hc' with rfl | rfl <;> decide
+      · rw [List.any_eq_false]
+        intro x hx
+        have := List.all_eq_true.mp hq.2 x hx
+        simpa using notSD_not_D x this
+    · simp [hq] at h
+
+theorem shortForm_none_of_D (s : Str) (hD : s.any isDch = true) : shortForm s = none := by
+  cases hs : shortForm s with
+  | none => rfl
+  | some t =>
+    exfalso
+    cases s with
+    | nil => simp at hD
+    | cons c0 r =>
+      unfold shortForm at hs
+      by_cases hsg : isSign c0 = true
+      · simp only [hsg, if_true] at hs
+        have hc' : c0 = '+' ∨ c0 = '-' := by simpa [isSign] using hsg
+        have hc0 : isDch c0 = false := by rcases hc' with rfl | rfl <;> decide
+        cases h1 : shortTry (some c0) r with
+        | some t' =>
+          have := shortTry_noD _ _ _ h1
+          simp [List.any_cons, hc0, this] at hD
+        | none =>
+          simp only [h1] at hs
+          have := shortTry_noD _ _ _ hs
+          rw [this] at hD
+          simp at hD
+      · have hsg' : isSign c0 = false := by simpa using hsg
+        simp only [hsg'] at hs
+        have := shortTry_noD _ _ _ hs
+        rw [this] at hD
+        simp at hD
+
+theorem takeSign_suffix (s : Str) : ∃ p, s = p ++ (takeSign s).2 := by
+  cases s with
+  | nil => exact ⟨[], by simp [takeSign]⟩
+  | cons c r =>
+    by_cases h1 : c = '-'
+    · exact ⟨[c], by simp [takeSign, h1]⟩
+    · by_cases h2 : c = '+'
+      · exact ⟨[c], by simp [takeSign, h2]⟩
+      · exact ⟨[], by simp [takeSign, h1, h2]⟩
+
+
+
 end Pharmpy.C13
